@@ -50,10 +50,10 @@ def rand_date(rng: random.Random, lo=2008, hi=2020, era=None) -> str:
     return f"{y:04d}-{m:02d}-{d:02d}"
 
 
-def gen_leaf(rng, *, always=False, allow_null=True, lo=0.0, hi=10.0, boolean=False, era=None, p_inf=0.0):
+def gen_leaf(rng, *, always=False, allow_null=True, lo=0.0, hi=10.0, boolean=False, era=None, p_inf=0.0, long=False):
     """[[date, value|None|'expected'], ...] (unordered on purpose)."""
     n = rng.randint(1, 5)
-    if rng.random() < 0.04:
+    if long:
         n = rng.randint(17, 40)  # a parameter indexed every year for decades: a long history
     dates = set()
     first = "0001-01-01" if era == "ancient" else "1900-01-01"
@@ -82,9 +82,11 @@ def gen_leaf(rng, *, always=False, allow_null=True, lo=0.0, hi=10.0, boolean=Fal
 
 def gen_tree(rng: random.Random, era=None, p_inf=0.0) -> dict:
     L = dict(era=era, p_inf=p_inf)
+    # (one tree in seven has one parameter with a long history)
+    long_one = pick(rng, ["p0", "p1", "p2"]) if chance(rng, 0.15) else None
     tree = {
-        "p0": gen_leaf(rng, **L),
-        "g": {"kind": "node", "children": {"p1": gen_leaf(rng, **L), "h": {"kind": "node", "children": {"p2": gen_leaf(rng, **L)}}}},
+        "p0": gen_leaf(rng, long=long_one == "p0", **L),
+        "g": {"kind": "node", "children": {"p1": gen_leaf(rng, long=long_one == "p1", **L), "h": {"kind": "node", "children": {"p2": gen_leaf(rng, long=long_one == "p2", **L)}}}},
     }
     brackets = []
     for i in range(rng.randint(1, 3)):
